@@ -37,6 +37,8 @@ class Ctx:
         if profile not in self._progs:
             if profile not in _PROCESS_CACHE:
                 facts = extract(profile)
+                from .outline import outline_lane_loops
+                facts = outline_lane_loops(facts)        # `for (a, b) in lanes.zip(lanes)` read as Zip::from(..).and(..).for_each(|a, b| ..)
                 _PROCESS_CACHE[profile] = (Program(facts), facts["_meta"], len(facts["bodies"]))
             prog, meta, nb = _PROCESS_CACHE[profile]
             self._progs[profile] = prog
